@@ -11,6 +11,9 @@ mod c16;
 mod c18;
 mod c13;
 mod c19;
+mod fx;
+mod c09;
+mod c08;
 
 use common::*;
 use std::path::PathBuf;
@@ -42,6 +45,8 @@ fn main() {
         "c18" => c18::run(&mut out, tier, seed, replay),
         "c13" => c13::run(&mut out, tier, seed, replay),
         "c19" => c19::run(&mut out, tier, seed, replay),
+        "c09" => c09::run(&mut out, tier, seed, replay),
+        "c08" => c08::run(&mut out, tier, seed, replay),
         _ => {
             eprintln!("unknown property {}", prop);
             std::process::exit(2);
